@@ -11,7 +11,7 @@ task, builds the returned handle from exactly those, and a failed bind has no si
 unlinked only by the accept task on its exit, never on an error path of bind); the accept loop keeps accepting
 (never awaits the callback: shared rule with C20). Does NOT decide what the OS accepts or refuses."""
 from ..sym import show, walk_expr
-from ..common import short
+from ..common import short, strip_view
 from .. import pathq
 from . import acc, hs
 
@@ -62,6 +62,17 @@ def run(ctx, f, rep):
                     hr = pathq.mentions_call(h, lambda y: is_accept_poll(f, y))
                     # key = clone(.0 of the result), handle = .1 of the same result, returned = .0
                     same = kr == resolved and hr == resolved
+                # a bind must not displace (and thereby silently stop) a listener already recorded under the same endpoint - a host name
+                # can resolve to a second address and to the very same endpoint: the insert happens only after the table was found
+                # not to contain that key, or its returned old value is looked at
+                if len(ins) == 1:
+                    ii, iev = ins[0]
+                    absent = any(e[0] in ("call", "pure") and short(e[1]) == "contains_key" and "HashMap" in e[1] and pathq.truth(c) is False and
+                                 len(e[2]) > 1 and strip_view(e[2][1]) == strip_view(iev.args[1]) for (e, c, _, _) in p.conds[:iev.ncond])
+                    looked = any(e[0] == "discr" and any(y == iev.result for y in walk_expr(e[1])) for (e, c, _, _) in p.conds[iev.ncond:])
+                    rep.check(absent or looked, "R18.1", "R18.1|no-silent-displacement",
+                              "bind records the endpoint only after finding it absent from the bind table (%s), or looks at what insert displaced (%s): "
+                              "an existing listener under the same endpoint is never dropped silently" % (absent, looked), b.loc(iev.bb))
                 rep.check(okk and same, "R18.1", "R18.1|insert-resolved-endpoint",
                           "a successful bind adds exactly the endpoint begin_accept resolved (with its stop handle) and returns that endpoint (inserts=%d, begin_accept Ok=%s, same result=%s)" % (len(ins), accepted, same), b.loc())
                 for i, ev in lst:
